@@ -11,7 +11,8 @@ import oalprogs
 import c08_parse
 
 LAST_DIFF = None
-GAPS = [' ', '\t', '\n', '  \n\t ', ' /* c */ ', ' /* multi\n line * comment */ ', ' // line comment ; if\n', '\r\n']
+GAPS = [' ', '\t', '\n', '  \n\t ', ' /* c */ ', ' /* multi\n line * comment */ ', ' // line comment ; if\n', '\r\n',
+        ' /** doc **/ ', ' /***/ ', ' /**** b * / ** ****/ ', ' /**/ ']
 NG = len(GAPS)
 PROGS = [oalgen.to_text(b) for _, b in oalprogs.PROGRAMS] + c08_parse.EXTRA
 NP = len(PROGS)
